@@ -53,8 +53,33 @@ fn panic_class(msg: &str) -> &'static str {
     }
 }
 
+/// purity probe: after every offered byte string a well-formed anchor file is read and looked up
+/// again; what the previous (possibly damaged) input left behind must not change the answers
+fn anchor_probe(pred_label: &str, pred: &[u8], acc: &mut Acc) {
+    use std::sync::OnceLock;
+    static ANCHOR: OnceLock<(Vec<u8>, Vec<i64>, Vec<i32>)> = OnceLock::new();
+    let (bytes, ts, want) = ANCHOR.get_or_init(|| {
+        let z = zone(2, vec![(-1_000_000_000i64, 1usize), (954_032_400, 2), (972_781_200, 1)], "CET-1CEST,M3.5.0,M10.5.0/3");
+        let z = Zone { footer: rz::parse_posix_tz("CET-1CEST,M3.5.0,M10.5.0/3", false), ..z };
+        let b = rz::write_tzif(&z);
+        let ts = vec![0i64, 960_000_000, 1_000_000_000, 1_720_000_000, 1_735_000_000];
+        let want = ts.iter().map(|t| rz::offset_at(&z, *t).unwrap_or(i32::MIN)).collect();
+        (b, ts, want)
+    });
+    acc.transitions += 1;
+    let got = call(|| astrolabe::verif_hooks::tzif_offsets(bytes, ts));
+    if got != Out::Val(Ok(want.clone())) {
+        acc.violation("TZif reader / lookup", "well-formed-file-answered-differently-after-another-input", json!({"kind": "anchor", "label": pred_label, "hex": hex(pred)}), format!("{:?}", want), got.show().chars().take(300).collect());
+    }
+}
+
 /// one byte string offered as TZif data
 fn case_bytes(label: &str, bytes: &[u8], with_local: bool, acc: &mut Acc) {
+    case_bytes_inner(label, bytes, with_local, acc);
+    anchor_probe(label, bytes, acc);
+}
+
+fn case_bytes_inner(label: &str, bytes: &[u8], with_local: bool, acc: &mut Acc) {
     acc.transitions += 1;
     acc.states += 1;
     let ts = if label.starts_with("footer") { lookups() } else { wide_lookups() };
@@ -365,6 +390,10 @@ pub fn run(ctx: &Ctx) -> i32 {
 
 pub fn replay(_op: &str, case: &Value, acc: &mut Acc) -> bool {
     match case["kind"].as_str() {
+        Some("anchor") => {
+            let b = unhex(case["hex"].as_str().unwrap());
+            case_bytes(case["label"].as_str().unwrap_or(""), &b, true, acc)
+        }
         Some("bytes") => case_bytes(case["label"].as_str().unwrap_or(""), &unhex(case["hex"].as_str().unwrap()), false, acc),
         Some("local") => case_bytes(case["label"].as_str().unwrap_or(""), &unhex(case["hex"].as_str().unwrap()), true, acc),
         Some("indexed") => {
